@@ -55,6 +55,10 @@ pub struct Case {
     pub ban_time_short: bool,
     pub workers: u8,
     pub steps: Vec<Step>,
+    /// (only with ban_time = 1 s) after the history: every replica is brought up, bans are left to expire, and replica-role
+    /// transactions must reach every replica of a shard again
+    #[serde(default)]
+    pub expiry_probe: bool,
 }
 
 pub struct WirePart;
@@ -71,7 +75,7 @@ impl Part for WirePart {
         true
     }
     fn rule(&self) -> String {
-        "1..2 shards, each with or without a primary, 0..4 replicas on distinct loopback addresses, random or least-outstanding load balancing, healthcheck_delay 0 or 60 s, healthcheck_timeout 150 ms, connect_timeout 200 ms, statement_timeout 0 or 300 ms, ban_time 1 or 60 s; histories of 3..14 steps over {set a replica's fault mode: up / accept-and-close / hang at start-up / hang at query / die on the next message / slow, admin BAN host secs (replica or the primaries' host), UNBAN host, client transaction on a shard with role any|replica|primary (read or write), a statement whose reply stalls after 9 kB, sleep past a short ban}. The ban list is sampled through SHOW BANS before and after every transaction (observation-driven model). Oracle: the primary never appears in SHOW BANS; a replica enters the ban list only if it was faulty or admin-banned and leaves it only by UNBAN, expiry or the all-replicas-of-its-shard-banned rule; no tagged statement reaches a replica that was certainly banned while another replica of the shard could not have been banned; a transaction with a usable, unbanned candidate is served without error; when every replica of the shard is banned the next checkout is served by one of them; a replica that breaks mid-statement costs that one transaction and is then banned; refusals and failovers complete within candidates x timeouts + 2 s, never blocking indefinitely. Non-trivial = a fault active during a transaction that had an alternative candidate".into()
+        "1..2 shards, each with or without a primary, 0..4 replicas on distinct loopback addresses, random or least-outstanding load balancing, healthcheck_delay 0 or 60 s, healthcheck_timeout 150 ms, connect_timeout 200 ms, statement_timeout 0 or 300 ms, ban_time 1 or 60 s; histories of 3..14 steps over {set a replica's fault mode: up / accept-and-close / hang at start-up / hang at query / die on the next message / slow, admin BAN host secs (replica or the primaries' host), UNBAN host, client transaction on a shard with role any|replica|primary (read or write), a statement whose reply stalls after 9 kB, sleep past a short ban}; with ban_time 1 s, half of the histories end with an expiry probe (everything up, bans left to expire, then 26..60 replica-role transactions per shard). The ban list is sampled through SHOW BANS before and after every transaction (observation-driven model). Oracle: the primary never appears in SHOW BANS; a replica enters the ban list only if it was faulty or admin-banned and leaves it only by UNBAN, expiry or the all-replicas-of-its-shard-banned rule; no tagged statement reaches a replica that was certainly banned while another replica of the shard could not have been banned; a transaction with a usable, unbanned candidate is served without error; when every replica of the shard is banned the next checkout is served by one of them; a replica that breaks mid-statement costs that one transaction and is then banned; refusals and failovers complete within candidates x timeouts + 2 s, never blocking indefinitely; after the expiry probe every replica of the shard has received at least one statement (a ban ends after ban_time, also under least-outstanding balancing). Non-trivial = a fault active during a transaction that had an alternative candidate".into()
     }
     fn cases(&self, tier: Tier) -> u64 {
         tier.pick(880, 8_000)
@@ -88,12 +92,12 @@ impl Part for WirePart {
             1 => (0u8..2, 0u8..2).prop_map(|(s, r)| Step::TxnHangMidReply(s, r)),
             1 => Just(Step::Sleep),
         ];
-        (1u8..=2, any::<bool>(), prop_oneof![1 => 0u8..=4, 1 => Just(4u8), 1 => Just(2u8)], any::<bool>(), any::<bool>(), any::<bool>(), prop::bool::weighted(0.3), prop_oneof![Just(1u8), Just(2u8), Just(4u8)], prop::collection::vec(step, 3..15))
-            .prop_map(|(shards, primary, replicas, loc, healthcheck_delay_zero, statement_timeout, ban_time_short, workers, steps)| {
+        (1u8..=2, any::<bool>(), prop_oneof![1 => 0u8..=4, 1 => Just(4u8), 1 => Just(2u8)], any::<bool>(), any::<bool>(), any::<bool>(), prop::bool::weighted(0.3), prop_oneof![Just(1u8), Just(2u8), Just(4u8)], prop::collection::vec(step, 3..15), prop::bool::weighted(0.5))
+            .prop_map(|(shards, primary, replicas, loc, healthcheck_delay_zero, statement_timeout, ban_time_short, workers, steps, expiry_probe)| {
                 // every shard needs at least one server
                 let primary = primary || replicas < shards;
                 let steps = steps.into_iter().filter(|s| ban_time_short || !matches!(s, Step::Sleep)).collect();
-                Case { shards, primary, replicas, loc, healthcheck_delay_zero, statement_timeout, ban_time_short, workers, steps }
+                Case { shards, primary, replicas, loc, healthcheck_delay_zero, statement_timeout, ban_time_short, workers, steps, expiry_probe: expiry_probe && ban_time_short }
             })
             .boxed()
     }
@@ -514,10 +518,108 @@ async fn run_case(c: &Case, ctx: &mut WorkerCtx) -> Outcome {
             }
         }
     }
+    // ---- expiry epilogue: "a ban ends after ban_time". Everything is brought up, stale pooled connections are flushed, the
+    // 1-second bans are left to expire, and then replica-role transactions must reach every replica of the shard again
+    // (load balancing picks among unbanned candidates at random when the pool is idle: a replica that is never chosen in
+    // n transactions with probability < 1e-7 is still banned)
+    if c.expiry_probe && c.ban_time_short && !stale.is_empty() {
+        for r in 0..nrep {
+            env.mocks[np + r].set_slow(0);
+            env.mocks[np + r].set_fault(Fault::Up);
+        }
+        let shards_to_probe: Vec<usize> = (0..nsh).filter(|s| reps_of(*s).len() >= 2 && reps_of(*s).iter().any(|r| stale.contains(r))).collect();
+        if !shards_to_probe.is_empty() {
+            // round A: flush connections that died with their replica (may cost transactions and re-ban for a second)
+            for sh in &shards_to_probe {
+                for _ in 0..10 {
+                    cid += 1;
+                    let _ = replica_txn(&env, cid, *sh).await;
+                }
+            }
+            tokio::time::sleep(Duration::from_millis(2400)).await;
+            for sh in &shards_to_probe {
+                let reps = reps_of(*sh);
+                // a 30-second admin ban is still running: nothing to expect for this shard
+                if reps.iter().any(|r| banned.get(r).map(|(since, dur)| *dur > 1 && (since.elapsed().as_secs() as i64) <= *dur + 1).unwrap_or(false)) {
+                    continue;
+                }
+                let n = match reps.len() {
+                    2 => 26,
+                    3 => 42,
+                    _ => 60,
+                };
+                // a replica whose pooled connections died with it can be banned once more (for a second) when such a
+                // connection fails its health check: then the probe is repeated after that ban has expired as well
+                for attempt in 0..3 {
+                    let mut hits: HashMap<usize, u32> = HashMap::new();
+                    let mut clean = true;
+                    for _ in 0..n {
+                        cid += 1;
+                        match replica_txn(&env, cid, *sh).await {
+                            Some(servers) => {
+                                for sv in servers {
+                                    if sv >= np {
+                                        *hits.entry(sv - np).or_default() += 1;
+                                    }
+                                }
+                            }
+                            None => clean = false,
+                        }
+                    }
+                    o.label("expiry_probe");
+                    let missing: Vec<usize> = reps.iter().cloned().filter(|r| !hits.contains_key(r)).collect();
+                    if missing.is_empty() {
+                        break;
+                    }
+                    let bans = show_bans(&mut admin).await.unwrap_or_default();
+                    let listed = |r: usize| bans.keys().any(|k| k.starts_with(&format!("{}|", replica_ip(r))));
+                    if !clean || missing.iter().any(|r| listed(*r)) {
+                        o.label("expiry_probe_repeated");
+                        if attempt < 2 {
+                            tokio::time::sleep(Duration::from_millis(2400)).await;
+                        }
+                        continue;
+                    }
+                    o.fail(
+                        "expired-ban-never-lifted",
+                        format!("every replica of shard {} is up, all 1-second bans are over and SHOW BANS ({:?}) does not list r{}, yet it received none of {} replica-role transactions (hits {:?}, load balancing {}); case {:?}", sh, bans, missing[0], n, hits, if c.loc { "loc" } else { "random" }, c),
+                    );
+                    break;
+                }
+                if o.violation.is_some() {
+                    break;
+                }
+            }
+        }
+    }
     let mut env = env;
     if !env.pg.alive() {
         o.fail("pgcat-died", format!("pgcat exited: {}", env.pg.stderr_tail(500)));
     }
     env.finish().await;
     o
+}
+
+/// One autocommit read with role 'replica' on a shard through a fresh client; Some(backends that received it) when it was
+/// answered without error.
+async fn replica_txn(env: &Env, cid: u32, shard: usize) -> Option<Vec<usize>> {
+    let mut cli = env.client(cid, "u", "db", "pw", &[]).await.ok()?;
+    for cmd in [format!("SET SHARD TO '{}'", shard), "SET SERVER ROLE TO 'replica'".to_string()] {
+        let (_m, e) = cli.simple(&cmd, wire::T_REPLY).await;
+        if !matches!(e, ReadEnd::Ready(_)) {
+            return None;
+        }
+    }
+    let t = cli.tag();
+    let (m, e) = cli.simple(&format!("{} SELECT v FROM t", t.render()), Duration::from_secs(4)).await;
+    let ok = matches!(e, ReadEnd::Ready(_)) && crate::cli::errors(&m).is_empty();
+    cli.send(&proto::terminate()).await;
+    cli.close();
+    if !ok {
+        return None;
+    }
+    Some(env.log().iter().filter_map(|ev| match &ev.kind {
+        EvKind::Rx { tags, .. } if tags.contains(&t) => Some(ev.server),
+        _ => None,
+    }).collect())
 }
